@@ -154,6 +154,116 @@ Example C06_example_independent :
    Prompt.Model.OExec 2 0 (Prompt.Model.mkCmd 2 2 5); Prompt.Model.OEnded].
 Proof. vm_compute. split; reflexivity. Qed.
 
+(** ================= TIE to the code regenerated from /repo =================
+    translate/ids_funs.py regenerates Gen/IdsFuns.v (a statement/expression AST of
+    ThreadTaskIdComposer, TaskAndThreadKeeper, TaskOrThreadToTraceMapper, Repeater.on_start_trace /
+    on_end_trace, current_task_or_thread and the counter constructors) from the CURRENT source on
+    every check; Ids/Interp.v interprets that AST; Ids/Tie.v proves that the interpreter run on the
+    regenerated bodies computes exactly the operations of the hand-written Ids/Model.v.  The
+    theorems below are about the REGENERATED definitions ([program]): a behavioural change of a
+    tracked method changes [program] and the proofs in Ids/Tie.v are re-checked against it.
+    [Rst lt lm st s] relates an interpreter state to a model state (Ids/TieBase.v): same counters,
+    same maps (task counters: one per thread NUMBER, created by the defaultdict on demand); [Pre s]
+    is the part of the model's invariant [Inv] the code relies on (numbers are never 0, ...). *)
+From NL Require Import Ids.Interp Gen.IdsFuns Ids.TieBase Ids.Tie.
+
+(** the regenerated __init__ bodies produce the model's initial state *)
+Theorem C06_tie_init : exists lt lm, Rsys lt lm (iinit program) init.
+Proof. exact tie_init. Qed.
+
+(** thread number and task number of an actor: `self._counter()` of the keeper
+    (ThreadTaskIdComposer.__call__ -> _current_thread_task, _map.get, _compose, _map[key] = ..)
+    is [composer_call] of the model -- for ALL related states, actors, answers of
+    asyncio.current_task() (task / None / RuntimeError) and event-loop assignments *)
+Theorem C06_tie_thread_task_numbers : forall n th ok nl lp st en lt lm s, (36 <= n)%nat ->
+  Rst lt lm st s -> Pre s ->
+  exists st',
+    eval program (mkCx (th, ok) nl lp) n st en (ECall (EAttr Keeper "_counter"%string))
+      = EV st' en (enc_id (snd (composer_call s (th, ok)))) /\
+    Rst lt lm st' (fst (composer_call s (th, ok))) /\ i_out st' = i_out st.
+Proof. exact composer_call_tie. Qed.
+
+(** the trace number every plugin attributes its events with: the hook current_trace_no() is a
+    pure read of TaskOrThreadToTraceMapper._map BY THE CURRENT TASK-OR-THREAD *)
+Theorem C06_tie_trace_no_lookup : forall n th ok nl lp st en lt lm s, (14 <= n)%nat ->
+  Rst lt lm st s ->
+  eval program (mkCx (th, ok) nl lp) n st en (EHook "current_trace_no"%string) = EV st en (enc_oz (m_map s (th, ok))).
+Proof. exact eval_current_trace_no. Qed.
+
+(** ONE label executed by the regenerated code (Filtered: `filtered` up to the call of
+    on_start_task_or_thread; Mapped: trace number at the first filtered event, _map[current] = ..,
+    on_start_trace -> OnStartTrace(trace_no, current_thread_no(), current_task_no()), _set.add;
+    Emit: current_trace_no(); End: _on_end -> _map[ending] -> OnEndTrace, the entry is KEPT)
+    = ONE step of the model, for ALL related states *)
+Theorem C06_tie_step : forall nl lp lt lm y s l, Rsys lt lm y s -> Pre s ->
+  Rsys lt lm (fst (istep program nl lp y l)) (fst (step s l)) /\
+  snd (istep program nl lp y l) = snd (step s l).
+Proof. exact tie_step. Qed.
+
+(** hence every run of the regenerated code is the run of the model *)
+Theorem C06_tie_simulation : forall nl lp ls, itrace program nl lp ls = trace ls.
+Proof. exact tie_trace. Qed.
+
+Theorem C06_tie_final_state : forall nl lp ls, exists lt lm, Rsys lt lm (ifinal program nl lp ls) (final ls).
+Proof. exact tie_final. Qed.
+
+(** and the C06 invariants hold of the regenerated code *)
+Theorem C06_tie_trace_no_injective : forall nl lp ls a b ta ida tb idb,
+  started (itrace program nl lp ls) a = Some (ta, ida) -> started (itrace program nl lp ls) b = Some (tb, idb) ->
+  (a = b <-> ta = tb).
+Proof. exact tie_trace_no_injective. Qed.
+
+Theorem C06_tie_trace_numbers_sequential : forall nl lp ls,
+  map (fun x => fst (snd x)) (starts (itrace program nl lp ls)) =
+  map Z.of_nat (seq 1 (length (starts (itrace program nl lp ls)))).
+Proof. exact tie_trace_numbers_sequential. Qed.
+
+Theorem C06_tie_thread_task_pair_identifies : forall nl lp ls a b ta na ka tb nb kb,
+  started (itrace program nl lp ls) a = Some (ta, (na, ka)) -> started (itrace program nl lp ls) b = Some (tb, (nb, kb)) ->
+  (fst a = fst b <-> na = nb) /\
+  (fst a = fst b -> a <> b -> ka <> kb) /\
+  ((na, ka) = (nb, kb) -> a = b) /\
+  (snd a = None <-> ka = None).
+Proof. exact tie_thread_task_pair_identifies. Qed.
+
+Theorem C06_tie_numbers_stable : forall nl lp ls ls' a v,
+  started (itrace program nl lp ls) a = Some v -> started (itrace program nl lp (ls ++ ls')) a = Some v.
+Proof. exact tie_numbers_stable. Qed.
+
+Theorem C06_tie_attribution : forall nl lp ls pre a x o post,
+  itrace program nl lp ls = pre ++ (Emit a x, o) :: post ->
+  o = OEv (option_map fst (started pre a)) x.
+Proof. exact tie_attribution. Qed.
+
+Theorem C06_tie_end_attribution : forall nl lp ls pre a o post,
+  itrace program nl lp ls = pre ++ (End a, o) :: post ->
+  o = match started pre a with Some (t, _) => OEnd t | None => OErr end.
+Proof. exact tie_end_attribution. Qed.
+
+(** the two methods of ThreadTaskIdComposer the run does not use: has_id() is a pure read;
+    reset() installs a NEW thread counter from 1 and drops every task counter but keeps the maps
+    from objects to numbers (nextline never calls it; numbers would repeat after it) *)
+Theorem C06_tie_has_id : forall n th ok nl lp st en lt lm s, (16 <= n)%nat -> Rst lt lm st s ->
+  eval program (mkCx (th, ok) nl lp) n st en (EMethod Composer "has_id"%string []) = EV st en (VBool (is_some (c_map s (th, ok)))).
+Proof. exact tie_has_id. Qed.
+
+Theorem C06_tie_reset : forall n cx st en lt lm s, (8 <= n)%nat -> Rst lt lm st s ->
+  exists st' lt',
+    eval program cx n st en (EMethod Composer "reset"%string []) = EV st' en VNone /\
+    Rst lt' lm st' (w_tkctr (w_thctr s 1) (fun _ => 1)).
+Proof. exact tie_reset. Qed.
+
+(** non-vacuity: the regenerated code, interpreted, on the run of C06_example_nonvacuous (current_task()
+    raising RuntimeError in the threads with an even number), plus an End of an unknown actor and a
+    Mapped without Filtered *)
+Example C06_tie_example_nonvacuous :
+  iouts program (fun a => Z.even (fst a)) (fun _ _ => 0) (ex_run ++ [End (9, None); Mapped (5, None)]) =
+  [OComposed; OStart 1 1 None; OEv (Some 1) 10; OComposed; OStart 2 1 (Some 1);
+   OComposed; OComposed; OStart 3 3 None; OStart 4 2 (Some 1); OEv (Some 4) 11;
+   OSeen; OComposed; OStart 5 2 (Some 2); OEv None 12; OComposed; OStart 6 2 None;
+   OEnd 2; OEv (Some 2) 13; OErr; OErr].
+Proof. vm_compute. reflexivity. Qed.
+
 Print Assumptions C06_trace_no_injective.
 Print Assumptions C06_trace_numbers_sequential.
 Print Assumptions C06_thread_task_pair_identifies.
@@ -164,3 +274,17 @@ Print Assumptions C06_independent.
 Print Assumptions C06_independent_of_blocked_trace.
 Print Assumptions C06_answer_is_delivered.
 Print Assumptions C06_prompt_text_is_own.
+Print Assumptions C06_tie_init.
+Print Assumptions C06_tie_thread_task_numbers.
+Print Assumptions C06_tie_trace_no_lookup.
+Print Assumptions C06_tie_step.
+Print Assumptions C06_tie_simulation.
+Print Assumptions C06_tie_final_state.
+Print Assumptions C06_tie_trace_no_injective.
+Print Assumptions C06_tie_trace_numbers_sequential.
+Print Assumptions C06_tie_thread_task_pair_identifies.
+Print Assumptions C06_tie_numbers_stable.
+Print Assumptions C06_tie_attribution.
+Print Assumptions C06_tie_end_attribution.
+Print Assumptions C06_tie_has_id.
+Print Assumptions C06_tie_reset.
